@@ -89,6 +89,8 @@ def standard_configs(rng):
         Config("klmGac-midnight-tiepoints", "klmGac", ydm_to_ms(2002, 186, 86400000 - 7300), 30,
                kw=dict(interpolate_coords=False), cfg=(0, 1, 0, 1)),
         Config("klmLac", "klmLac", ydm_to_ms(2002, 187, 10000000), 10, cfg=(0, 1, 0, 1)),
+        # no element set within the limit: every angle request takes the approximate fallback, the first and the later ones
+        Config("klmGac-stale-tle", "klmGac", ydm_to_ms(2000, 250, 30000000), 30, cfg=(0, 1, 0, 0)),
     ]
     return cs
 
